@@ -279,6 +279,10 @@ fn undefined_matrix() -> Vec<(String, E)> {
         // an entry that is there and holds an undefined value behaves like a missing last field
         ("entry-holding-undefined", attr(var("mu"), "k", false)),
         ("field-of-entry-holding-undefined", attr(attr(var("mu"), "k", false), "y", false)),
+        // the missing field in the middle of a path bears the same name as the last one, or as a field that exists
+        ("missing-field-twice", attr(attr(var("m"), "zz", false), "zz", false)),
+        ("missing-field-then-present-name", attr(attr(attr(var("m"), "a", false), "zz", false), "b", false)),
+        ("missing-field-twice-deeper", attr(attr(attr(var("m"), "a", false), "b2", false), "b2", false)),
         ("present-field", attr(var("m"), "n", false)),
         ("none-variable", var("nn")),
     ];
